@@ -579,6 +579,14 @@ TARGETS = {
              {"params": [("d12", "F"), ("n1sq", "F"), ("n2sq", "F"), ("R2", "F")],
               "consts": {"dot(eci_position_1, eci_position_2)": ("d12", "F"), "norm(eci_position_1) ** 2": ("n1sq", "F"),
                          "norm(eci_position_2) ** 2": ("n2sq", "F"), "Earth.radius ** 2": ("R2", "F")}}),
+            ("ConicFoV.inFieldOfView", "conicInFieldOfView", {"self": "-", "pointing_sez": "-", "background_sez": "-"}, 0,
+             {"file": "sensors/field_of_view.py", "params": [("angle", "F"), ("cone_angle", "F")],
+              "consts": {"subtendedAngle": ("angle", "F"), "self.cone_angle": ("cone_angle", "F")}}),
+            ("Sensor.canSlew", "canSlew", {"self": "-", "slant_range_sez": "-"}, 0,
+             {"file": "sensors/sensor_base.py",
+              "params": [("slew_rate", "F"), ("host_time", "F"), ("time_last_tasked", "F"), ("delta", "F")],
+              "consts": {"self.deltaBoresight": ("delta", "F"), "self.slew_rate": ("slew_rate", "F"), "self.host.time": ("host_time", "F"),
+                         "self.time_last_tasked": ("time_last_tasked", "F")}}),
             ("RectangularFoV.inFieldOfView", "rectInFieldOfView", {"self": "-", "pointing_sez": "-", "background_sez": "-"}, 0,
              {"file": "sensors/field_of_view.py",
               "params": [("az_p", "F"), ("el_p", "F"), ("az_b", "F"), ("el_b", "F"), ("az_full", "F"), ("el_full", "F")],
@@ -642,6 +650,25 @@ TARGETS = {
               "consts": {"residual.shape[0]": ("dim", "I"), "chiSquareQuadraticForm": ("q", "F"), "self.delta": ("delta", "F")},
               "object_state": ({"self.metric": "metric", "self.prior_nis": "prior_nis", "self.total_dim": "total_dim", "self.total": "total"}, set(),
                                {"not test(self.metric, self.threshold, dof)": "(prior_nis, total_dim, total, metric, dof)"})}),
+        ],
+    },
+    "EventsQuery": {
+        # which event rows a step's query selects (C01): scope, the window test on the stored Julian dates, the addressed instance
+        "file": "data/events/__init__.py",
+        "mode": "exact",
+        "fns": [
+            ("getRelevantEvents", "getRelevantEvents", {}, 0,
+             {"sql_filter": ({"scope": "I", "start_time_jd": "F", "end_time_jd": "F", "scope_instance_id": "I"},
+                             {"event_scope": "I", "julian_date_lb": "F", "julian_date_ub": "F", "scope_instance_id": "OI"})}),
+        ],
+    },
+    "Conversions": {
+        # the day count of the sidereal-time chain (C04, C11): month table, leap-year rule, the loop over the months
+        "file": "physics/time/conversions.py",
+        "mode": "exact",
+        "fns": [
+            ("dayOfYear", "dayOfYear", {"year": "I", "month": "I", "day": "I", "hour": "I", "minute": "I", "second": "F"}, 12),
+            ("seconds2hms", "seconds2hms", {"total_seconds": "F"}, 0),
         ],
     },
     "Prep": {
@@ -740,6 +767,69 @@ class _MethodOps(ast.NodeTransformer):
         return node
 
 
+def gen_sql_filter(lean_name, fdef, cols, params):
+    """`getRelevantEvents`: the function builds one SQLAlchemy query; what it selects is the conjunction of the comparisons handed to
+    `.filter(...)` - those of a `filter` whose result is thrown away select nothing, which is how a forgotten `query = ` shows. The row's
+    columns (`cols`) and the function's parameters (`params`) become the arguments of a predicate on one row."""
+    alias, qvar, conj = None, None, []
+
+    def side(n):
+        if isinstance(n, ast.Attribute) and isinstance(n.value, ast.Name) and n.value.id == alias and n.attr in cols:
+            return f"e_{n.attr}", cols[n.attr]
+        if isinstance(n, ast.Attribute) and n.attr == "value" and isinstance(n.value, ast.Name) and n.value.id in params:
+            return n.value.id, params[n.value.id]
+        if isinstance(n, ast.Name) and n.id in params:
+            return n.id, params[n.id]
+        raise Unsupported(f"{lean_name}: filter operand {ast.unparse(n)}")
+
+    def comparison(c, unwrap=None):
+        if not (isinstance(c, ast.Compare) and len(c.ops) == 1):
+            raise Unsupported(f"{lean_name}: filter argument {ast.unparse(c)}")
+        (a, ta), (b, tb) = side(c.left), side(c.comparators[0])
+        if unwrap and b == unwrap:
+            b, tb = "v", tb[1:]
+        if ta != tb:
+            raise Unsupported(f"{lean_name}: comparison of {ta} with {tb}")
+        sym = {ast.Lt: "<", ast.LtE: "≤", ast.Gt: ">", ast.GtE: "≥", ast.Eq: "="}.get(type(c.ops[0]))
+        if sym is None:
+            raise Unsupported(f"{lean_name}: comparison {type(c.ops[0]).__name__}")
+        return f"decide ({a} {sym} {b})"
+
+    def filter_call(v):
+        return isinstance(v, ast.Call) and isinstance(v.func, ast.Attribute) and v.func.attr == "filter" and not v.keywords
+
+    for st in fdef.body:
+        if isinstance(st, ast.Expr) and isinstance(st.value, ast.Constant):
+            continue
+        if isinstance(st, ast.Assign) and isinstance(st.value, ast.Call) and ast.unparse(st.value.func) == "with_polymorphic":
+            alias = st.targets[0].id
+        elif isinstance(st, ast.Assign) and filter_call(st.value) and isinstance(st.value.func.value, ast.Call) \
+                and ast.unparse(st.value.func.value) == f"Query({alias})" and qvar is None:
+            qvar = st.targets[0].id
+            conj += [comparison(c) for c in st.value.args]
+        elif isinstance(st, ast.If) and not st.orelse and len(st.body) == 1 and isinstance(st.test, ast.Compare) \
+                and isinstance(st.test.ops[0], ast.IsNot) and isinstance(st.test.left, ast.Name) and params.get(st.test.left.id, "").startswith("O"):
+            opt, b = st.test.left.id, st.body[0]
+            if isinstance(b, ast.Assign) and isinstance(b.targets[0], ast.Name) and b.targets[0].id == qvar and filter_call(b.value) \
+                    and isinstance(b.value.func.value, ast.Name) and b.value.func.value.id == qvar:
+                inner = " && ".join(comparison(c, unwrap=opt) for c in b.value.args)
+                conj.append(f"(match {opt} with | none => true | some v => {inner})")
+            elif isinstance(b, ast.Expr) and filter_call(b.value):
+                pass  # the filtered query is thrown away: nothing is selected by it
+            else:
+                raise Unsupported(f"{lean_name}: statement {ast.unparse(b)}")
+        elif isinstance(st, ast.Return) and ast.unparse(st.value) == f"database.getData({qvar})":
+            break
+        else:
+            raise Unsupported(f"{lean_name}: statement {ast.unparse(st)[:60]}")
+    else:
+        raise Unsupported(f"{lean_name}: no return of the query's rows")
+    ps = " ".join(f"(e_{c} : {LEAN_T[t]})" for c, t in cols.items()) + " " + " ".join(
+        f"({p} : {'Option ' + LEAN_T[t[1:]] if t.startswith('O') and t not in LEAN_T else LEAN_T[t]})" for p, t in params.items())
+    return (f"/-- `{fdef.name}`: the row predicate of the query it builds (one row `e_*` of the events table) -/\n"
+            f"def {lean_name} {ps} : Bool :=\n  " + " &&\n  ".join(conj) + "\n")
+
+
 def generate(module):
     spec = TARGETS[module]
     known = {}
@@ -749,6 +839,9 @@ def generate(module):
         extra = ent[4] if len(ent) > 4 else {}
         tree = ast.parse((SRC / extra.get("file", spec["file"])).read_text())
         fdef = find_def(tree, qual)
+        if "sql_filter" in extra:
+            chunks.append(gen_sql_filter(lean_name, fdef, *extra["sql_filter"]))
+            continue
         fdef = ast.parse(ast.unparse(fdef)).body[0] if extra.get("keep_isinstance") else _Isinstance().visit(ast.parse(ast.unparse(fdef)).body[0])
         table = {}
         if qual == "JulianDate.convertToScenarioTime":
